@@ -84,6 +84,8 @@ SOLVE_FAMILY = {
                                       "distinct cases in which at least one soft requirement went through its own run_sat"),
         "unsat_graph": (lambda c, i, m: any(l.startswith("info graph edges") and int(l.split()[3]) >= 3 for l in m),
                         "distinct Unsolvable cases whose conflict graph has at least 3 edges"),
+        "cancelled": (lambda c, i, m: any(l.startswith("result cancelled") for l in i),
+                      "distinct cases in which the run was actually cancelled (the plan fired at a poll the run reached)"),
         "any": (lambda c, i, m: True, "all distinct cases (every case exercises panic/termination checks)"),
     },
     "compare": split_oracles,
@@ -96,6 +98,8 @@ FAMILIES["solve"] = dict(SOLVE_FAMILY, rule="generated provider universes (1-8 p
     "in 3 shapes (general/tight/hinted), sync runtime; non-trivial = the run learnt a clause, or ended Unsolvable, or made >= 4 assignments; distinct by sha256 of the case")
 FAMILIES["soft"] = dict(SOLVE_FAMILY, rule="as `solve` plus 1-4 soft requirements drawn from all solvables (compatible, incompatible, duplicates, other versions of installed packages, excluded, locked-out, Unknown deps)")
 FAMILIES["lazy"] = dict(SOLVE_FAMILY, rule="as `solve` (general and tight shapes) but with no availability hints anywhere, locks on 1/4 of the packages and constrains on 1/2 of the solvables - the setting of C09")
+FAMILIES["cancel"] = dict(SOLVE_FAMILY, rule="universes of all shapes (general/tight/hinted/soft/lazy); the uncancelled run is measured first and a cancellation plan drawn from it: the signal is up at poll k (k uniform over all polls of the run, incl. never), "
+    "or goes up while provider request number j is being served (j uniform over all requests); 1/3 transient (up only at that poll / until the next request starts)")
 FAMILIES["conflictfree"] = dict(SOLVE_FAMILY, rule="as `solve` without locks/exclusions/Unknown/missing packages, biased to version sets matching everything, with favored candidates; "
     "non-trivial additionally requires the preferred candidates to be mutually compatible (C07 hypothesis, decided by the driver)")
 
@@ -129,20 +133,20 @@ CF_Q = {"quick": 2500, "thorough": 40000}
 PROPS = {
     "C01": {
         "nt_rule": "ok4",
-        "level": "other", "module": "Resolvo.Props.C01",
-        "theorems": ["Resolvo.C01.valid_decided", "Resolvo.C01.valid_unfold", "Resolvo.C01.valid_mono_exempt",
+        "level": "proof", "module": "Resolvo.Props.C01", "imports": ["Resolvo.MDet.CheckedProofs"],
+        "theorems": ["Resolvo.MDet.solveChecked_ok_valid", "Resolvo.C01.valid_decided", "Resolvo.C01.valid_unfold", "Resolvo.C01.valid_mono_exempt",
                      "Resolvo.validB_iff", "Resolvo.Abs.mu_satisfies"],
         "families": [("solve", SOLVE_Q), ("soft", SOFT_Q), ("conflictfree", CF_Q)],
         "profiles": ["debug", "release"],
-        "explanation": "PROVED (Lean, all inputs): validB decides Valid exactly (the full statement of C01 incl. the soft exemption); every non-learnt clause of an accepted history is satisfied by every valid selection (provenance soundness). "
-                       "CHECKED PER RUN on every generated case (sync runtime; debug and release builds; all hint patterns): validB on the implementation's own answer, and acceptance of the implementation's recorded history by the abstract system. "
-                       "NOT YET PROVED: that the model of the search returns only valid selections for all inputs (refinement obligations R1-R6 of DESIGN 3.6).",
+        "explanation": "PROVED (Lean, all universes/problems/cancellation plans/cache states/fuel): solveChecked_ok_valid - every solution returned by the checked deterministic model of Solver::solve (MDet.solve followed by the verified checkers; objections are the explicit outcome checkFailed) satisfies the full statement of C01 incl. the soft exemption; validB decides Valid exactly. "
+                       "TIE: MDet.solve is compared with the real Solver::solve on every generated case for exact equality of result, solution order, provider call log (with cancellation polls) and the complete solver history (variables, clauses, assignments with levels and reasons, undos, learnt clauses with antecedents); validB is also evaluated on the implementation's own answers (debug and release builds). "
+                       "NOT PROVED (refinement gap, checked per run): that the model never yields checkFailed.",
         "assumptions": ["provider contract WF (candidates carry their package's name, are listed once, have table entries); malformed providers are outside C01"],
     },
     "C02": {
         "nt_rule": "unsat_or_learnt",
-        "level": "proof", "module": "Resolvo.Props.C02",
-        "theorems": ["Resolvo.C02.unsat_certified", "Resolvo.C02.decideSolvable_correct", "Resolvo.C02.ok_solvable",
+        "level": "proof", "module": "Resolvo.Props.C02", "imports": ["Resolvo.MDet.CheckedProofs"],
+        "theorems": ["Resolvo.MDet.solveChecked_unsat_sound", "Resolvo.MDet.solveChecked_ok_solvable", "Resolvo.C02.unsat_certified", "Resolvo.C02.decideSolvable_correct", "Resolvo.C02.ok_solvable",
                      "Resolvo.C02.verdict_invariant", "Resolvo.Abs.fail_sound", "Resolvo.Sat.rup_sound", "Resolvo.Sat.decideSat'_iff",
                      "Resolvo.encodeAll_iff", "Resolvo.Abs.step_linv", "Resolvo.Abs.step_sinv"],
         "families": [("solve", SOLVE_Q), ("soft", SOFT_Q), ("conflictfree", CF_Q)],
@@ -167,9 +171,10 @@ PROPS = {
     },
     "C05": {
         "nt_rule": "ok_after_learning",
-        "level": "other", "module": "Resolvo.Props.C05", "theorems": ["Resolvo.C05.supportedB_sound", "Resolvo.C05.closure_sound"],
+        "level": "proof", "module": "Resolvo.Props.C05", "imports": ["Resolvo.MDet.CheckedProofs"],
+        "theorems": ["Resolvo.MDet.solveChecked_ok_supported", "Resolvo.C05.supportedB_sound", "Resolvo.C05.closure_sound"],
         "families": [("solve", SOLVE_Q), ("soft", SOFT_Q), ("conflictfree", CF_Q)],
-        "explanation": "PROVED: the support closure computed by the oracle only contains supported solvables. CHECKED PER RUN: supportedB on every solution the implementation returns (backtracking-heavy `tight` shape included). NOT YET PROVED: the universal statement for the model of the search.",
+        "explanation": "PROVED (all inputs): every solvable in a solution returned by the checked model is Supported (solveChecked_ok_supported). TIE: exact correspondence of MDet.solve with the real solver (result, solution order, history) + supportedB on every implementation answer. NOT PROVED: that checkFailed never occurs (checked per run); completeness of the closure oracle.",
     },
     "C07": {
         "nt_rule": "preferred",
@@ -190,9 +195,19 @@ PROPS = {
         "families": [("lazy", {"quick": 4000, "thorough": 80000}), ("conflictfree", CF_Q), ("soft", SOFT_Q), ("cache", {"quick": 1500, "thorough": 20000})],
         "explanation": "PROVED: cache-level at-most-once. CHECKED PER RUN: causal order and at-most-once of the provider call log of every sync run without hints; exact call-log correspondence of SolverCache with its model.",
     },
+    "C12": {
+        "nt_rule": "cancelled",
+        "level": "other", "module": "Resolvo.Props.C12",
+        "theorems": ["Resolvo.C12.poll_fires", "Resolvo.C12.poll_transparent", "Resolvo.C12.no_deps_request_after_signal", "Resolvo.C12.no_cands_request_after_signal"],
+        "families": [("cancel", {"quick": 4000, "thorough": 80000})],
+        "explanation": "PROVED on the model: a poll that sees the signal aborts the solve with exactly the provider's value and logs nothing else; a poll that does not see it only increments the poll counter (transparency); an uncached get_dependencies / get_candidates whose preceding poll sees the signal is never issued. "
+                       "TIE: exact equality of result, cancellation value and the provider call log *including every poll in order* between MDet and the real solver, under cancellation plans drawn from the uncancelled run (signal up at poll k for every k incl. never; signal raised while provider request j is served; persistent and transient). "
+                       "ORACLES on the implementation's own log: observed signal => Cancelled with that value, no request after observation, no request after the signal went up, persistent signal never ignored. Async runs with requests in flight: see C10/C13 families.",
+    },
     "C14": {
         "nt_rule": "soft_rejected_or_accepted",
-        "level": "other", "module": "Resolvo.Props.C14", "theorems": ["Resolvo.C14.exempt_only_affects_lock_exclusion", "Resolvo.C14.never_error"],
+        "level": "other", "module": "Resolvo.Props.C14", "imports": ["Resolvo.MDet.CheckedProofs"],
+        "theorems": ["Resolvo.MDet.solveChecked_soft_never_error", "Resolvo.MDet.solveChecked_ok_valid", "Resolvo.C14.exempt_only_affects_lock_exclusion", "Resolvo.C14.never_error"],
         "families": [("soft", {"quick": 4000, "thorough": 80000})],
         "profiles": ["debug", "release"],
         "explanation": "PROVED: a history accepted by the abstract system never reports Unsolvable for a solvable hard problem; the exemption affects only the lock/exclusion conjunct. CHECKED PER RUN on the soft family: validB with exemption, verdict vs verified decideSolvable, history acceptance, no panic (debug and release).",
